@@ -515,6 +515,21 @@ def r5(ctx):
     for lp in fors:
         ctx.look()
         ok = bool(lp.orelse) and isinstance(lp.orelse[-1], ast.Raise)
+        if not ok and not lp.orelse:
+            # the flag spelling: a local set only on the way to `break`, tested right after the loop — `if not <flag>: raise`
+            from ..sym import _break_flags
+            flags = _break_flags(lp)
+            blk = None
+            par = P.parent(lp)
+            for fld in ("body", "orelse", "finalbody"):
+                b_ = getattr(par, fld, None)
+                if isinstance(b_, list) and any(x is lp for x in b_):
+                    blk = b_
+            nxt = blk[blk.index(lp) + 1] if blk is not None and blk.index(lp) + 1 < len(blk) else None
+            for fl, vals in flags.items():
+                if all(is_const(v, True) for v in vals) and isinstance(nxt, ast.If) and norm(nxt.test) == f"not {fl}" and nxt.body and isinstance(nxt.body[-1], ast.Raise):
+                    pre = [x for x in blk[:blk.index(lp)] if isinstance(x, ast.Assign) and norm(x) == f"{fl} = False"]
+                    ok = bool(pre)
         ctx.check(ok, "C14.R5", "when every candidate operator is rejected or disabled the token is rejected", f.module.line(lp),
                   ctx.construct(f, text="for operator in operators: … else"), "the candidate loop must end in `else: raise`")
     # flags gate exactly their records, with the right polarity
